@@ -39,10 +39,22 @@ def spec_window(frame, c, p, h=None, w=None):
 
 
 def real_crops(frame, c, peaks, backend, dtype, h=None, w=None, sparse_frame=False, extra_slots=0, peaks_dtype="int64",
-               layout=None):
+               layout=None, out_layout=None):
     h = 2 * c if h is None else h
     w = 2 * c if w is None else w
     buf = np.full((len(peaks) + extra_slots, h, w), SENT, dtype=dtype)
+    if out_layout:
+        # an output buffer of the documented shape that is not C-contiguous: the leading part of row-padded buffers, every second
+        # slot of a larger stack, the interior of a guard-banded block, a column-major array
+        n_ = len(peaks) + extra_slots
+        if out_layout == "rowpad":
+            buf = np.full((n_, h, w + 3), SENT, dtype=dtype)[:, :, :w]
+        elif out_layout == "slots":
+            buf = np.full((2 * n_, h, w), SENT, dtype=dtype)[::2]
+        elif out_layout == "guard":
+            buf = np.full((n_ + 2, h + 2, w + 2), SENT, dtype=dtype)[1:-1, 1:-1, 1:-1]
+        else:
+            buf = np.asfortranarray(np.full((n_, h, w), SENT, dtype=dtype))
     fr = frame.astype(dtype)
     if layout == "F":
         fr = np.asfortranarray(fr)
@@ -204,7 +216,8 @@ def run_case(kind, params):
         try:
             res[be] = real_crops(frame, c, peaks, be, dt, sparse_frame=bool(params.get("sparse")),
                                  extra_slots=int(params.get("extra_slots", 0)),
-                                 peaks_dtype=params.get("peaks_dtype", "int64"), layout=params.get("layout"))
+                                 peaks_dtype=params.get("peaks_dtype", "int64"), layout=params.get("layout"),
+                                 out_layout=params.get("out_layout"))
         except Exception as e:
             msgs.append(f"{be} back-end raised {type(e).__name__}: {e}")
     fr = frame.astype(dt)
@@ -293,6 +306,9 @@ def search(ctx, boost=1, focus=()):
         if k % 6 == 2 and k % 5 != 0:
             cases[-1]["layout"] = ("F", "strided", "readonly")[(k // 6) % 3]
             ctx.count("layout_" + cases[-1]["layout"])
+        if k % 6 == 0 and k % 5 != 0:
+            cases[-1]["out_layout"] = ("rowpad", "slots", "guard", "F")[(k // 6) % 4]
+            ctx.count("out_layout_" + cases[-1]["out_layout"])
     # the same integer peaks held in other integer containers (unsigned ones included: a peak next to the top / left border has
     # a window origin below zero, which the container type cannot hold)
     pdts = ("uint16", "uint8", "uint32", "uint64", "int16", "int32", "int8")
